@@ -267,7 +267,11 @@ func (t *Thread) processIncomingInterest(packet *defn.Pkt) {
 				// This is not the fastest way to do it, but simplifies everything
 				// significantly. We can optimize this later.
 				csData, csWire, err := csEntry.Copy()
-				if csData != nil && csWire != nil {
+				if csData != nil && csWire != nil && incomingFace.Scope() == defn.NonLocal &&
+					len(csData.NameV) > 0 && bytes.Equal(csData.NameV[0].Val, LOCALHOST) {
+					// Cached /localhost Data cannot be sent to a non-local face: treat as a
+					// miss, answering with it would only consume the pending Interest
+				} else if csData != nil && csWire != nil {
 					packet.L3.Data = csData
 					packet.L3.Interest = nil
 					packet.Raw = csWire
